@@ -530,8 +530,14 @@ type Base struct {
 	Id ID ` + "`json:\"id\"`" + `
 }
 
+// an embedded struct whose type name is not exported still promotes its exported fields
+type paging struct {
+	Page int ` + "`json:\"page\"`" + `
+}
+
 type Inner struct {
 	Base
+	paging
 	Name   string ` + "`json:\"name\" validate:\"required\"`" + `
 	hidden int
 	Skip   Color ` + "`json:\"-\"`" + `
@@ -595,6 +601,7 @@ func vhC07FrontModels(agreementOnly bool) {
 		switch name {
 		case "Inner":
 			visit("Base")
+			visit("paging")
 			visit("Color") // through Skip: a field tagged json:"-" is still a field of the declaration (its type is kept; it is not a property)
 			for _, t := range []string{f0, f1} {
 				for _, d := range vhFrontDeps(t) {
@@ -613,7 +620,7 @@ func vhC07FrontModels(agreementOnly bool) {
 		}
 	}
 	var want []string
-	for _, n := range []string{"Base", "Color", "Ext", "ID", "Inner", "Kind", "Leaf", "Level"} {
+	for _, n := range []string{"Base", "Color", "Ext", "ID", "Inner", "Kind", "Leaf", "Level", "paging"} {
 		if reach[n] {
 			want = append(want, n)
 		}
@@ -650,7 +657,7 @@ func vhC07FrontModels(agreementOnly bool) {
 			// JSON-visible fields under their JSON names: hidden (unexported) and Skip (json:"-") are not properties
 			symxAssert(vhSameStrings(v.props, vhSortStrings([]string{"name", "F0", "f1"})), "C07.front."+ver+".properties-are-the-json-visible-fields")
 			symxAssert(vhSameStrings(v.required, []string{"name"}), "C07.front."+ver+".required-lists-fields-validated-as-required")
-			symxAssert(v.isAllOf && vhSameStrings(v.allOf, []string{"#/components/schemas/Base"}), "C07.front."+ver+".embedded-struct-via-allOf")
+			symxAssert(v.isAllOf && vhSameStrings(v.allOf, []string{"#/components/schemas/Base", "#/components/schemas/paging"}), "C07.front."+ver+".embedded-structs-via-allOf")
 		}
 		if reach["Color"] {
 			v := views["Color"][vi]
